@@ -1129,6 +1129,10 @@ def fam_dup_attrs(rng):
         for x, y in ((a, b), (b, a)):
             for tgt, attr, item in SUB_ITEMS:
                 out.append(Case("dup_attrs", attr, "%s\n%s\n%s" % (x, y, item)))
+    # trait methods without a receiver, without any parameter
+    for m in ("fn z();", "fn z() -> i32;", "async fn z();", "fn z(a: i32, b: i32) -> i32;", "fn z<T>(t: T);", "fn z() where Self: Sized;"):
+        for attr in ("", "delegate_by = ref", "delegate_by = Borrow", "FooImpl, delegate_by = Deleg", "FooImpl, delegate_by = ref", "mock_api = M, unimock"):
+            out.append(Case("dup_attrs", attr, "trait T { %s fn f(&self); }" % m))
     return out
 
 
@@ -1164,6 +1168,12 @@ def fam_coverage_gaps(rng):
         for o in OPT_VOCAB_FN + ["delegate_by = Borrow", "delegate_by = Deleg", "debug", "debug = true = false", "mock_api", "mock_api = 3", "unimock = maybe"]:
             out.append(Case("coverage_gaps", pre + o, item))
             out.append(Case("coverage_gaps", pre + "debug = false, " + o, item))
+    # every item of the malformed stream at least once under a plain and under an optioned attribute (the random stream picks a subset)
+    for it in BAD_ITEMS:
+        out.append(Case("malformed_item", "Foo", it))
+        out.append(Case("malformed_item", "", it))
+        out.append(Case("malformed_item", "Foo, no_deps, mock_api = M", it))
+        out.append(Case("malformed_item", "FooImpl, delegate_by = ref", it))
     # an impl header the compiler accepts and the macro's own parser does not: a where clause before the block
     for item in ("impl FooImpl for MyType where Self: Sized { fn f<D>(d: &D) {} }", "impl FooImpl for MyType where { fn f<D>(d: &D) {} }",
                  "impl<T> FooImpl for Vec<T> where T: Send { fn f<D>(d: &D) {} }"):
